@@ -38,9 +38,10 @@ type c13Doc struct {
 }
 
 type c13Step struct {
-	Op  string  `json:"op"` // new | again | concurrent | shared
-	Doc *c13Doc `json:"doc,omitempty"`
-	Idx []int   `json:"idx,omitempty"`
+	Op   string  `json:"op"` // new | new-concurrent | again | concurrent | shared | mutate | cold
+	Doc  *c13Doc `json:"doc,omitempty"`
+	Idx  []int   `json:"idx,omitempty"`
+	Seed int     `json:"seed,omitempty"`
 }
 
 type c13Input struct {
@@ -278,6 +279,68 @@ func (mc *c13Machine) apply(st c13Step) string {
 		for e := range errs {
 			return e
 		}
+	case "new-concurrent":
+		// an input the process has never seen is evaluated on 8 goroutines at once FIRST (lazily initialised
+		// shared state is written on first use), then once more alone; all results must agree
+		results := make([]map[string]string, 8)
+		purs := make([]string, 8)
+		var wg sync.WaitGroup
+		for g := 0; g < 8; g++ {
+			wg.Add(1)
+			go func(g int) {
+				defer wg.Done()
+				results[g], purs[g] = c13Eval(*st.Doc)
+			}(g)
+		}
+		wg.Wait()
+		alone, pur := c13Eval(*st.Doc)
+		if pur != "" {
+			return pur
+		}
+		for g := 0; g < 8; g++ {
+			if purs[g] != "" {
+				return purs[g]
+			}
+			if msg := c13Compare(alone, results[g]); msg != "" {
+				return "first-time concurrent evaluation differs from a later evaluation alone: " + msg
+			}
+		}
+		mc.pool = append(mc.pool, *st.Doc)
+		mc.base = append(mc.base, alone)
+	case "mutate":
+		// the same model OBJECT, edited in place between two calls, must give what a fresh deep clone gives
+		for _, i := range st.Idx {
+			if i >= len(mc.pool) {
+				continue
+			}
+			var obj *openfgav1.AuthorizationModel
+			switch mc.pool[i].Kind {
+			case "dsl":
+				obj, _ = transformer.TransformDSLToProto(mc.pool[i].Text)
+			case "json":
+				obj, _ = transformer.LoadJSONStringToProto(mc.pool[i].Text)
+			}
+			if obj == nil {
+				continue
+			}
+			_ = c13ModelOps(obj, nil)
+			// edit: drop the alphabetically first relation of every type that has more than one, and rename the id
+			for _, td := range obj.GetTypeDefinitions() {
+				if len(td.GetRelations()) > 1 {
+					names := sortedKeys(td.GetRelations())
+					victim := names[st.Seed%len(names)]
+					delete(td.Relations, victim)
+					if td.GetMetadata() != nil {
+						delete(td.Metadata.Relations, victim)
+					}
+				}
+			}
+			got := c13ModelOps(obj, nil)
+			want := c13ModelOps(proto.Clone(obj).(*openfgav1.AuthorizationModel), nil)
+			if msg := c13Compare(want.res, got.res); msg != "" {
+				return "a model object edited in place gives a different result than a fresh copy of the same value (state keyed by object identity?): " + msg
+			}
+		}
 	case "cold":
 		// the same call first-thing in a fresh process (no history at all) must agree with this process
 		for _, i := range st.Idx {
@@ -348,7 +411,8 @@ func (mc *c13Machine) apply(st c13Step) string {
 const c13Rule = "rapid state machine over call histories: a pool of inputs grows by rapid-drawn documents (repository corpus valid and invalid, mutants, rendered generated models, modular " +
 	"JSON models with unsorted attributed types, fga.mod manifests, module file sets, validator strings); every entry point is evaluated when an input first appears (DSL parse, JSON " +
 	"conversion, printer with and without source information, plain graph + reversal DOT, weighted graph dump, mod file, merge, validators); later steps re-evaluate earlier inputs " +
-	"('again'), evaluate batches on 8 goroutines ('concurrent'), share ONE model object between 8 goroutines ('shared'), or repeat the call first-thing in a fresh child process " +
+	"('again'), evaluate batches on 8 goroutines ('concurrent'), evaluate a never-seen input on 8 goroutines FIRST ('new-concurrent'), edit a model object in place and compare with a " +
+	"fresh copy of the same value ('mutate'), share ONE model object between 8 goroutines ('shared'), or repeat the call first-thing in a fresh child process " +
 	"('cold', <= 1 per history); invariant: every result equals the first one recorded for that " +
 	"input, and every model/file list equals its clone after each call (purity, incl. slice order). Cold reference: documents parsed first-thing in fresh child processes must give the " +
 	"same fingerprints as the warm process. The binary is built with -race; a race report is a violation. Non-trivial = history with a re-evaluation after >= 5 other inputs, or a " +
@@ -377,6 +441,15 @@ func c13DrawDoc(rt *rapid.T, corp *gen.Corpus) c13Doc {
 			pm = c14Draw(rt).Model.Proto()
 		}
 		pm.Id = rapid.SampledFrom([]string{"", "01HVMMBCMGZNT3SED4Z17ECXCA", "01HVMMBCMGZNT3SED4Z17ECXCB"}).Draw(rt, "modelID")
+		// parameter types the DSL has no word for (any, unspecified, enum numbers this version does not know): JSON only
+		for _, cd := range pm.GetConditions() {
+			for _, ref := range cd.GetParameters() {
+				if rapid.IntRange(0, 3).Draw(rt, "exoticType") == 0 {
+					ref.TypeName = openfgav1.ConditionParamTypeRef_TypeName(rapid.SampledFrom([]int32{0, 1, 14, 15, 40, 41, 42, 57, 99, 100, 101, 250, 251, 999}).Draw(rt, "typeNumber"))
+					ref.GenericTypes = nil
+				}
+			}
+		}
 		js, _ := protojson.Marshal(pm)
 		return c13Doc{Kind: "json", Text: string(js)}
 	case 8:
@@ -496,6 +569,27 @@ func TestC13(t *testing.T) {
 					idx = append(idx, rapid.IntRange(0, len(mc.pool)-1).Draw(rt, "idx"))
 				}
 				do(c13Step{Op: "concurrent", Idx: idx})
+			},
+			"new-concurrent": func(rt *rapid.T) {
+				d := c13DrawDoc(rt, corp)
+				for _, x := range mc.pool {
+					if x.Kind == d.Kind && x.Text == d.Text {
+						rt.Skip("already seen")
+					}
+				}
+				do(c13Step{Op: "new-concurrent", Doc: &d})
+			},
+			"mutate": func(rt *rapid.T) {
+				var cands []int
+				for i, d := range mc.pool {
+					if d.Kind == "dsl" || d.Kind == "json" {
+						cands = append(cands, i)
+					}
+				}
+				if len(cands) == 0 {
+					rt.Skip("no model in the pool")
+				}
+				do(c13Step{Op: "mutate", Idx: []int{rapid.SampledFrom(cands).Draw(rt, "idx")}, Seed: rapid.IntRange(0, 5).Draw(rt, "victim")})
 			},
 			"cold": func(rt *rapid.T) {
 				if coldSteps >= 2 {
